@@ -29,6 +29,7 @@ type Machine struct {
 	epoch     int
 	funcsRun  map[*ssa.Function]bool
 	stubsRun  map[string]int
+	timeYear  map[string]Int // calendar year of time values produced by the time.Parse model (key: term of the ext field)
 	overrides map[string]Func
 	ovrUsed   map[string]int
 	allocBudget *Int
